@@ -81,6 +81,9 @@ def run(chk):
     dist_len = lambda a, b: abs(len(a) - len(b))  # noqa
     from Levenshtein import distance as levd
     dist_lev2 = lambda a, b: 2 * levd(a, b)  # noqa
+    from collections import Counter as _Counter
+    # letter-composition distance: anagrams are at distance 0 although many edits apart (order disagrees with Levenshtein)
+    dist_comp = lambda a, b: sum(((_Counter(a) - _Counter(b)) + (_Counter(b) - _Counter(a))).values())  # noqa
     pool3 = gen.all_strings("ACD", 3)
     configs = []
     sizes = [1, 2, 3, 5, 8, 13, 21, 40]
@@ -91,9 +94,13 @@ def run(chk):
         n_cpu = rng.choice([1, 2, 3, 4, 7, 16, n + 1, n + 3])
         comp = rng.choice([1, 2, 3, 4, 5, 7, 10, 19, 20, 25])
         mr = rng.choice([None, None, 1, 2, 3, 5])
-        mode = rng.choice(["lev", "lev", "ham", "custom"])
+        mode = rng.choice(["lev", "lev", "ham", "custom", "custom-comp"])
         k = rng.choice([1, 2, 3])
         configs.append((xs, n_cpu, comp, mr, mode, k))
+    # anagram families: close in composition, far in edits (max_returns must count TRUE neighbours only)
+    for mr in (1, 2, 3):
+        configs.append((["SACSD", "CASSD", "CASSE", "CASD", "ACSSD", "CASSD"], rng.choice([1, 3]), rng.choice([1, 4]), mr, "custom-comp", 1))
+        configs.append((["ACD", "CAD", "DCA", "ACE", "AC", "ADC", "ACDD"], 1, 1, mr, "custom-comp", 1))
     # the corner the property names explicitly
     configs.append((["CAAA", "CADA", "CAAK"], 4, 1, None, "lev", 1))
     configs.append((["CAAA"], 16, 2, None, "lev", 1))
@@ -102,6 +109,8 @@ def run(chk):
     for xs, n_cpu, comp, mr, mode, k in configs:
         if mode == "custom":
             ops.append({"op": "brute_self", "xs": xs, **search.score_fields("custom", k, xs, dist_lev2, 4)})
+        elif mode == "custom-comp":
+            ops.append({"op": "brute_self", "xs": xs, **search.score_fields("custom", k, xs, dist_comp, 3)})
         else:
             ops.append({"op": "brute_self", "xs": xs, "k": k, "mode": mode})
     specs = core.run_driver_parallel(ops)
@@ -112,6 +121,9 @@ def run(chk):
         elif mode == "custom":
             kw["custom_distance"] = dist_lev2
             kw["max_custom_distance"] = 4
+        elif mode == "custom-comp":
+            kw["custom_distance"] = dist_comp
+            kw["max_custom_distance"] = 3
         st, val = core.call_real(lambda: nn.kdtree(xs, **kw))
         spec = core.canon_model_trips(sp[1])
         meta = {"xs": xs, "n_cpu": n_cpu, "compression": comp, "max_returns": mr, "mode": mode, "k": k}
